@@ -349,6 +349,23 @@ def step (st : St) (line : String) : St × Option String :=
       if pre == "-" then (st, some "bigfile ok -")
       else if l == "dfull" || l == "full" then (st, some "bigfile err read")
       else (st, some "bigfile * *")
+  -- the wrapper stays usable after a failed call (the second call returns); whether the first call fails is the sink's affair
+  | ["iterretry", i, _, _] =>
+      match i.toNat?.bind (st.stypes[·]?) with
+      | some t => (st, some (if t.isZC then "iterretry first=* second=returned" else "iterretry -"))
+      | none => (st, some "badval")
+  -- a sequence of n zero-sized items is a header and a length word, for every n < 2^64 (C01.roundtrip has no bound on lengths)
+  | ["zstvec", _] => (st, some "zstvec ok")
+  -- minor version 0 with an unwritable stderr: what is read does not depend on the environment
+  | ["quietminor", i, val] =>
+      match i.toNat?.bind (st.types[·]?), parseVal val with
+      | some t, some v =>
+        if !t.wt v then (st, some "illtyped") else
+        let s0 := t.ser H (st.names.getD i.toNat! []) v
+        let s := if s0.length ≥ 12 then s0.take 10 ++ leBytes 2 0 ++ s0.drop 12 else s0
+        (st, some ("xdeser | F " ++ showRes (fun (x : Val × Nat) => showVal x.1 ++ " " ++ toString x.2) (t.deFull H s) ++
+                   " | E " ++ showRes (fun (x : EVal × Nat) => showEVal x.1 ++ " " ++ toString x.2) (t.deEps H 0 s)))
+      | _, _ => (st, some "badval")
   | ["dropcheck", _, _] => (st, some "dropcheck ok")     -- the region outlives the structure (Resources.loadTrace: release after the last use)
   | ["floadc", i, loader, cut, val] =>
       match i.toNat?.bind (st.types[·]?), cut.toNat?, parseVal val with
